@@ -261,10 +261,11 @@ func (t Tags) Get(key string) (tag string, success bool) {
 }
 
 // Set escapes given value and saves it as the value for given key. Note that
-// this is not concurrent safe.
+// this is not concurrent safe. Set cannot allocate the map for the caller: a
+// nil Tags must be initialized (Tags{}) before use.
 func (t Tags) Set(key, value string) error {
 	if t == nil {
-		t = make(Tags)
+		return fmt.Errorf("unable to set tag %q: Tags is nil (initialize it with Tags{})", key)
 	}
 
 	if !validTag(key) {
